@@ -103,6 +103,11 @@ def jobs(tier):
     for op in ("map", "filter", "filterfalse", "takewhile", "dropwhile", "starmap", "accumulate_f", "iter_sentinel"):
         add(op, 1, 2, 4, ffl="defaw", fl="acls")
     add("merge", 2, 1, 4, ffl="defaw", b1=True)
+    # groupby (its group handling is C16's subject): the parent iterator pulls and calls the key like the stdlib's
+    add("groupby_keys", 1, 3, 5)
+    add("groupby_keys", 1, 3, 5, pool=True)
+    add("groupby_keys_f", 1, 3, 5)
+    add("groupby_keys_f", 1, 2, 4, ffl="adef")
     add("cycle", 1, 2, 7, fl="llist")
     add("cycle", 1, 3, 8, fl="seq")
     for op in ("zip", "map", "zip_longest", "compress"):
